@@ -66,6 +66,8 @@ pub fn inputs(tier: Tier, corpus_dir: &str) -> serde_json::Value {
             arbitrary.push(w.repeat(70_000));
         }
     }
+    // the snippets of the repository's inline tests, alone and inside every nesting prefix
+    arbitrary.extend(spaces::test_string_inputs(corpus_dir, tier, false));
     // 66 001 tokens: just past 2^16
     arbitrary.push("a=1;\n".repeat(13_200));
     arbitrary.sort();
